@@ -161,12 +161,28 @@ def shape_oracle(out, opts: dict | None, kind: str) -> str | None:
 
 # ------------------------------------------------------------------ generation of trees
 
-def gen_tree(rng: random.Random, budget: int, allow_bomb: bool):
-    """(tree, armed?)  — zoo tree with Probe / Risky wrappers spliced in, maybe one armed bomb"""
+def gen_upper(rng: random.Random, sub):
+    """an `Upper` node (field names sorting before "__type") holding `sub` in one of its child fields"""
+    o = z.upper_origin(rng.randint(0, 2), rng.randint(1, 3)) if rng.random() < 0.5 else zoo.gen_origin(rng)
+    extra = zoo.Leaf(v=rng.randint(0, 3), origin=zoo.gen_origin(rng))
+    kw = dict(DISTINCT=rng.random() < 0.5, ID=rng.randint(0, 9), _0=rng.choice(["", "u"]), Zz=rng.choice(["z", "Z"]),
+              lower=rng.choice(["", "l"]), origin=o)
+    where = rng.choice(["FROM", "_1k", "ARGS"])
+    if where == "ARGS":
+        return z.Upper(ARGS=(extra, sub) if rng.random() < 0.5 else (sub,), **kw)
+    if where == "FROM":
+        return z.Upper(FROM=sub, _1k=extra if rng.random() < 0.4 else None, **kw)
+    return z.Upper(_1k=sub, ARGS=(extra,) if rng.random() < 0.4 else (), **kw)
+
+
+def gen_tree(rng: random.Random, budget: int, allow_bomb: bool, force_upper: bool = False):
+    """(tree, armed?)  — zoo tree with Upper / Probe / Risky wrappers spliced in, maybe one armed bomb"""
     g = zoo.Gen(rng, origins=True, share=0.05, long_tuples=False)
     t = g.tree(budget)
     armed = False
     n_wrap = rng.choice([0, 1, 1, 2, 3])
+    if force_upper:
+        n_wrap = max(n_wrap, 2)
     want_bomb = allow_bomb and rng.random() < 0.5
     for w in range(n_wrap):
         paths = list(z.wrap_positions(t))
@@ -178,7 +194,9 @@ def gen_tree(rng: random.Random, budget: int, allow_bomb: bool):
                 t = z.rebuild(t, path, lambda s: z.Risky(b=z.Boom(True), c=s, origin=zoo.gen_origin(rng)))
             else:
                 t = z.rebuild(t, path, lambda s: z.Risky(b=z.Boom(False), c=s, origin=z.boom_origin(True, rng.randint(0, 2))))
-        elif k < 0.5:
+        elif k < 0.3 or (force_upper and w == 0):
+            t = z.rebuild(t, path, lambda s: gen_upper(rng, s))
+        elif k < 0.55:
             t = z.rebuild(t, path, lambda s: z.Probe(n=rng.randint(0, 9), c=s, origin=zoo.gen_origin(rng)))
         elif k < 0.8:
             t = z.rebuild(t, path, lambda s: z.Risky(b=z.Boom(False), c=s, origin=zoo.gen_origin(rng)))
@@ -477,7 +495,9 @@ def make_ref(rng: random.Random):
     o1 = CodeOrigin(zoo._SRC[0], get_code_range(0, 1, 0, 2, 1, 2))
     o2 = CodeOrigin(zoo._SRC[1], get_code_range(3, 1, 3, 5, 1, 5))
     return zoo.Bin(zoo.Leaf(v=rng.randint(0, 9), s="r", origin=o1),
-                   zoo.Tup((z.Probe(n=1, c=zoo.Leaf2(v=2, extra=("x",))), zoo.Two(a="a", b="b", origin=MultiOrigin([o1, o2]))),
+                   zoo.Tup((z.Probe(n=1, c=zoo.Leaf2(v=2, extra=("x",))), zoo.Two(a="a", b="b", origin=MultiOrigin([o1, o2])),
+                            z.Upper(FROM=zoo.Leaf(v=5), DISTINCT=True, ID=3, ARGS=(zoo.Falsy(n=1),), _0="u",
+                                    origin=z.upper_origin(1, 2))),
                            origin=o2))
 
 
@@ -500,7 +520,7 @@ def cases(rng: random.Random, tier: str):
     combos = list(itertools.product([None, True, False], [None, True, False], [None, True], [None, EXPLORER, TEST],
                                     [None, z.HashInts]))
     for kind in (SER_KINDS if tier == "thorough" else ["as_dict", rng.choice(SER_KINDS[1:])]):
-        t, _ = gen_tree(rng, 8, allow_bomb=False)
+        t, _ = gen_tree(rng, 8, allow_bomb=False, force_upper=True)
         for chunk in range(0, len(combos), 3):
             forced = []
             for (sk, so, sr, ast, md) in combos[chunk:chunk + 3]:
